@@ -60,5 +60,9 @@ func (p Params) Validate() error {
 	if p.ProviderStakingRewardsPortion.IsNegative() {
 		return fmt.Errorf("ProviderStakingRewardsPortion cannot be negative: %s", p.ProviderStakingRewardsPortion.String())
 	}
+	// it is a portion of the protocol revenue: above one the remaining consumer portion would be negative
+	if p.ProviderStakingRewardsPortion.GT(sdkmath.LegacyOneDec()) {
+		return fmt.Errorf("ProviderStakingRewardsPortion cannot be greater than 1: %s", p.ProviderStakingRewardsPortion.String())
+	}
 	return nil
 }
